@@ -34,6 +34,11 @@ func canaryOK(e *Env) bool {
 
 // c03Key derives the finding key from the failing case's input class.
 func c03Key(c xferCase, o xferOutcome) string {
+	if o.Tree.FileCount() == 0 && c.Cfg.Transport == "mock" {
+		// the in-memory transport has no close racing ahead of the data, so the
+		// known QUIC finding does not apply here
+		return "empty-manifest:mock-transport:" + c.Shape
+	}
 	switch c.Names {
 	case "dotdot":
 		return "name-class:dotdot-substring"
@@ -61,7 +66,9 @@ func genC03Cases(e *Env) []xferCase {
 	var cases []xferCase
 	add := func(c xferCase) {
 		c.ID = fmt.Sprintf("C03-%05d", len(cases))
-		c.Cfg.Transport = "quic"
+		if c.Cfg.Transport == "" {
+			c.Cfg.Transport = "quic"
+		}
 		if c.Cfg.Conns == 0 {
 			c.Cfg.Conns = 1
 		}
@@ -113,6 +120,17 @@ func genC03Cases(e *Env) []xferCase {
 			c.Cfg.Conns = 1 + r.Intn(2)
 			c.Cfg.ChunkSize = []uint32{16, 64, 4096}[r.Intn(3)]
 			c.Cfg.NoRootDir, c.Cfg.ScanPaths = true, true
+			add(c)
+		}
+	}
+	// (b2) trees without files over the in-memory transport
+	for _, sh := range []string{"empty", "dirsonly"} {
+		for k := 0; k < e.Pick(6, 30); k++ {
+			c := xferCase{Shape: sh, Names: "plain", TSeed: r.U64()}
+			c.Cfg.Transport = "mock"
+			c.Cfg.Streams, c.Cfg.Resume = 1+r.Intn(8), r.Bool()
+			c.Cfg.ChunkSize = 64
+			c.Cfg.NoRootDir, c.Cfg.ScanPaths = r.Bool(), r.Bool()
 			add(c)
 		}
 	}
@@ -261,7 +279,7 @@ func runC03(e *Env) {
 		if c.Names == "dotdot" || c.Names == "badutf8" {
 			return c.Names
 		}
-		if c.Shape == "empty" || c.Shape == "dirsonly" || (len(c.Shape) > 7 && c.Shape[:7] == "grid:0:") {
+		if c.Cfg.Transport != "mock" && (c.Shape == "empty" || c.Shape == "dirsonly" || (len(c.Shape) > 7 && c.Shape[:7] == "grid:0:")) {
 			return "emptymanifest"
 		}
 		return ""
